@@ -8,6 +8,7 @@ import (
 	_ "verif/internal/props/c04"
 	_ "verif/internal/props/c05"
 	_ "verif/internal/props/c09"
+	_ "verif/internal/props/c10"
 	_ "verif/internal/props/c12"
 	_ "verif/internal/props/c13"
 	_ "verif/internal/props/c14"
